@@ -68,6 +68,9 @@ Proof. intros. simpl. induction l; simpl; auto; try (now rewrite IHl). Qed.
 Lemma nan_free_tuple : forall l, nan_free (VTuple l) = all_b nan_free l.
 Proof. intros. simpl. induction l; simpl; auto; try (now rewrite IHl). Qed.
 
+Lemma kfine_tuple : forall l, kfine (VTuple l) = all_b kfine l.
+Proof. intros. simpl. induction l; simpl; auto; try (now rewrite IHl). Qed.
+
 Lemma nan_free_list : forall l, nan_free (VList l) = all_b nan_free l.
 Proof. intros. simpl. induction l; simpl; auto; try (now rewrite IHl). Qed.
 
@@ -168,14 +171,14 @@ Lemma eqb_sym_bool : forall p q, Bool.eqb p q = Bool.eqb q p.
 Proof. destruct p, q; reflexivity. Qed.
 
 
-Lemma key_eq_refl : forall k, hashable k = true -> nan_free k = true -> key_eq k k = true.
+Lemma key_eq_refl : forall k, hashable k = true -> kfine k = true -> key_eq k k = true.
 Proof.
   induction k using val_ind'; intros Hh Hn; try discriminate; try reflexivity.
   - destruct b; reflexivity.
-  - simpl in *. now apply num_eq_refl.
+  - simpl in *. apply andb_prop in Hn. destruct Hn. now apply num_eq_refl.
   - simpl. apply bytes_eqb_refl.
   - simpl. apply range_eqb_refl.
-  - rewrite key_eq_tuple, Nat.eqb_refl. simpl. rewrite hashable_tuple in Hh. rewrite nan_free_tuple in Hn.
+  - rewrite key_eq_tuple, Nat.eqb_refl. simpl. rewrite hashable_tuple in Hh. rewrite kfine_tuple in Hn.
     induction l; simpl in *; auto. inversion H; subst. apply andb_prop in Hh. apply andb_prop in Hn.
     destruct Hh, Hn. rewrite H2 by assumption. simpl. now apply IHl.
 Qed.
@@ -205,10 +208,10 @@ Proof.
     rewrite E2 in E. assert (hstream_eqb (hstream a) (hstream a) = true) by now apply hstream_eqb_eq. congruence.
 Qed.
 
-Lemma kmatch_refl : forall k, hashable k = true -> nan_free k = true -> kmatch k k = true.
+Lemma kmatch_refl : forall k, hashable k = true -> kfine k = true -> kmatch k k = true.
 Proof. intros. unfold kmatch. rewrite key_eq_refl by assumption. rewrite (proj2 (hstream_eqb_eq _ _)); auto. Qed.
 
-(* ------------------------------------------------------------------ keys: transitivity under equal hasher input *)
+(* ------------------------------------------------------------------ the hash respects == (fix of C14a) *)
 
 Lemma tuple_split : forall x y, key_eq (VTuple x) (VTuple y) = true -> length x = length y /\ zip_all key_eq x y = true.
 Proof.
@@ -216,86 +219,60 @@ Proof.
   split; auto. now apply Nat.eqb_eq.
 Qed.
 
-Lemma key_eq_stream_len : forall x y, key_eq x y = true -> length (hstream x) = length (hstream y).
+(* equal keys feed the hasher the same input: for ALL values *)
+Theorem hash_respects_eq : forall x y, key_eq x y = true -> hstream x = hstream y.
 Proof.
   induction x using val_ind'; intros y; destruct y; intros E; try discriminate E; try reflexivity.
+  - simpl in *. apply Bool.eqb_prop in E. now subst.
+  - simpl in *. now rewrite (num_hash_respects_eq _ _ E).
+  - simpl in *. apply bytes_eqb_eq in E. now subst.
   - simpl in E. apply range_eqb_eq in E. destruct E; subst. reflexivity.
   - rewrite !hstream_tuple. apply tuple_split in E. destruct E as [L E]. revert l0 L E.
-    induction l; destruct l0; simpl; intros L E; try discriminate; auto.
-    inversion H; subst. apply andb_prop in E. destruct E as [E1 E2]. rewrite !app_length.
-    rewrite (H2 _ E1). f_equal. apply IHl; auto.
+    induction l as [|u l IHl]; intros l0 L E; destruct l0 as [|w l0]; simpl in *; try discriminate; auto.
+    inversion H as [|? ? Hu Hl]; subst. apply andb_prop in E. destruct E as [E1 E2].
+    rewrite (Hu _ E1). f_equal. apply IHl; auto.
 Qed.
 
-Lemma app_eq_len : forall {A} (a b c d : list A), a ++ b = c ++ d -> length a = length c -> a = c /\ b = d.
+Lemma kmatch_key_eq : forall a b, kmatch a b = key_eq a b.
 Proof.
-  induction a; destruct c; simpl; intros; try discriminate; auto.
-  inversion H; subst. destruct (IHa b c d H3); auto. now subst.
+  intros a b. unfold kmatch. destruct (key_eq a b) eqn:E.
+  - rewrite (hash_respects_eq a b E). rewrite (proj2 (hstream_eqb_eq _ _)); auto.
+  - apply andb_false_r.
 Qed.
 
-Lemma num_bits_int_inj : forall a b, in_i64 a = true -> in_i64 b = true -> num_bits (I a) = num_bits (I b) -> a = b.
-Proof.
-  intros a b A B H. apply in_i64_bounds in A. apply in_i64_bounds in B. simpl in H.
-  assert (Ha : a mod 18446744073709551616 = if a <? 0 then a + 18446744073709551616 else a).
-  { destruct (Z.ltb_spec a 0).
-    - rewrite <- (Z.mod_small (a + 18446744073709551616) 18446744073709551616) by lia.
-      replace (a + 18446744073709551616) with (a + 1 * 18446744073709551616) by lia. now rewrite Z.mod_add by lia.
-    - apply Z.mod_small. lia. }
-  assert (Hb : b mod 18446744073709551616 = if b <? 0 then b + 18446744073709551616 else b).
-  { destruct (Z.ltb_spec b 0).
-    - rewrite <- (Z.mod_small (b + 18446744073709551616) 18446744073709551616) by lia.
-      replace (b + 18446744073709551616) with (b + 1 * 18446744073709551616) by lia. now rewrite Z.mod_add by lia.
-    - apply Z.mod_small. lia. }
-  rewrite Ha, Hb in H. destruct (Z.ltb_spec a 0), (Z.ltb_spec b 0); lia.
-Qed.
+Theorem hash_ok_all : forall U : val -> Prop, hash_ok_on U.
+Proof. intros U a b _ _ E. apply hstream_eqb_eq. now apply hash_respects_eq. Qed.
 
-(* three numbers with the same bits, pairwise-chained ==: two of them have the same representation *)
-Lemma num_eq_trans_bits : forall x y z, num_ok x = true -> num_ok y = true -> num_ok z = true ->
-    num_bits x = num_bits y -> num_bits y = num_bits z ->
-    num_eq x y = true -> num_eq y z = true -> num_eq x z = true.
+(* ------------------------------------------------------------------ keys: == is transitive on exact keys *)
+
+Lemma key_eq_trans : forall a b c, kfine a = true -> kfine b = true -> kfine c = true ->
+    key_eq a b = true -> key_eq b c = true -> key_eq a c = true.
 Proof.
-  intros x y z X Y Z B1 B2 E1 E2.
-  destruct x as [a|a], y as [b|b], z as [c|c]; simpl in X, Y, Z.
-  - simpl in *. apply Z.eqb_eq in E1. apply Z.eqb_eq in E2. subst. apply Z.eqb_refl.
-  - simpl in E1. apply Z.eqb_eq in E1. subst. exact E2.
-  - assert (a = c) by (apply num_bits_int_inj; auto; congruence). subst. simpl. apply Z.eqb_refl.
-  - simpl in B2. apply fbits_inj in B2. subst. exact E1.
-  - simpl in E2. apply Z.eqb_eq in E2. subst. exact E1.
-  - assert (a = c) by (apply fbits_inj; simpl in *; congruence). subst. apply num_eq_refl. exact X.
-  - simpl in B1. apply fbits_inj in B1. subst. exact E2.
-  - simpl in B1, B2. apply fbits_inj in B1. apply fbits_inj in B2. subst. apply num_eq_refl. exact X.
+  induction a using val_ind'; intros y z Na Nb Nc E1 E2; destruct y; try discriminate E1; destruct z; try discriminate E2;
+    try reflexivity.
+  - simpl in *. apply Bool.eqb_prop in E1. apply Bool.eqb_prop in E2. subst. apply Bool.eqb_reflx.
+  - simpl in Na, Nb, Nc. apply andb_prop in Na. apply andb_prop in Nb. apply andb_prop in Nc.
+    destruct Na, Nb, Nc. change (num_eq n n0 = true) in E1. change (num_eq n0 n1 = true) in E2.
+    change (num_eq n n1 = true). apply (num_eq_trans_exact n n0 n1); assumption.
+  - simpl in *. apply bytes_eqb_eq in E1. apply bytes_eqb_eq in E2. subst. apply bytes_eqb_refl.
+  - simpl in *. apply range_eqb_eq in E1. apply range_eqb_eq in E2. destruct E1, E2; subst. apply range_eqb_refl.
+  - rewrite kfine_tuple in *.
+    apply tuple_split in E1. destruct E1 as [L1 E1]. apply tuple_split in E2. destruct E2 as [L2 E2].
+    rewrite key_eq_tuple. apply andb_true_intro. split. apply Nat.eqb_eq. congruence.
+    revert l0 l1 L1 L2 Na Nb Nc E1 E2.
+    induction l; intros l0 l1 L1 L2 Na Nb Nc E1 E2; destruct l0 as [|u l0]; destruct l1 as [|w l1]; simpl in *; try discriminate; auto.
+    inversion H as [|? ? Hu Hl]; subst. inversion L1. inversion L2.
+    apply andb_prop in E1. destruct E1 as [E1 E1']. apply andb_prop in E2. destruct E2 as [E2 E2'].
+    apply andb_prop in Na. destruct Na. apply andb_prop in Nb. destruct Nb. apply andb_prop in Nc. destruct Nc.
+    apply andb_true_intro. split.
+    + apply (Hu u w); assumption.
+    + apply (IHl Hl l0 l1); assumption.
 Qed.
 
 Lemma kmatch_trans : forall a b c,
-    hashable a = true -> nan_free a = true -> nan_free b = true -> nan_free c = true ->
+    hashable a = true -> kfine a = true -> kfine b = true -> kfine c = true ->
     kmatch a b = true -> kmatch b c = true -> kmatch a c = true.
-Proof.
-  unfold kmatch. intros a b c Ha Na Nb Nc H1 H2.
-  apply andb_prop in H1. destruct H1 as [S1 E1]. apply andb_prop in H2. destruct H2 as [S2 E2].
-  apply hstream_eqb_eq in S1. apply hstream_eqb_eq in S2.
-  apply andb_true_intro. split. apply hstream_eqb_eq. congruence.
-  clear Ha. revert b c Na Nb Nc S1 S2 E1 E2.
-  induction a using val_ind'; intros y z Na Nb Nc S1 S2 E1 E2; destruct y; try discriminate E1; destruct z; try discriminate E2;
-    try reflexivity.
-  - simpl in *. apply Bool.eqb_prop in E1. apply Bool.eqb_prop in E2. subst. apply Bool.eqb_reflx.
-  - change (num_ok n = true) in Na. change (num_ok n0 = true) in Nb. change (num_ok n1 = true) in Nc.
-    change (num_eq n n0 = true) in E1. change (num_eq n0 n1 = true) in E2.
-    simpl in S1, S2. inversion S1. inversion S2. apply (num_eq_trans_bits n n0 n1); assumption.
-  - simpl in *. apply bytes_eqb_eq in E1. apply bytes_eqb_eq in E2. subst. apply bytes_eqb_refl.
-  - simpl in *. apply range_eqb_eq in E1. apply range_eqb_eq in E2. destruct E1, E2; subst. apply range_eqb_refl.
-  - rewrite !hstream_tuple in *. rewrite nan_free_tuple in *.
-    apply tuple_split in E1. destruct E1 as [L1 E1]. apply tuple_split in E2. destruct E2 as [L2 E2].
-    rewrite key_eq_tuple. apply andb_true_intro. split. apply Nat.eqb_eq. congruence.
-    revert l0 l1 L1 L2 Na Nb Nc S1 S2 E1 E2.
-    induction l; intros l0 l1 L1 L2 Na Nb Nc S1 S2 E1 E2; destruct l0 as [|u l0]; destruct l1 as [|w l1]; simpl in *; try discriminate; auto.
-    inversion H; subst. inversion L1. inversion L2.
-    apply andb_prop in E1. destruct E1 as [E1 E1']. apply andb_prop in E2. destruct E2 as [E2 E2'].
-    apply andb_prop in Na. destruct Na. apply andb_prop in Nb. destruct Nb. apply andb_prop in Nc. destruct Nc.
-    apply app_eq_len in S1; [|now apply key_eq_stream_len]. destruct S1.
-    apply app_eq_len in S2; [|now apply key_eq_stream_len]. destruct S2.
-    apply andb_true_intro. split.
-    + apply (H2 u w); assumption.
-    + apply (IHl H3 l0 l1); assumption.
-Qed.
+Proof. intros a b c _ Na Nb Nc. rewrite !kmatch_key_eq. now apply key_eq_trans. Qed.
 
 (* ------------------------------------------------------------------ lookups as first match *)
 
@@ -329,18 +306,19 @@ Qed.
 Fixpoint distinctb (ks : list val) : bool :=
   match ks with [] => true | k :: r => negb (existsb (kmatch k) r) && distinctb r end.
 
-(* NaN-free, integers in range, and every map has hashable keys no two of which address the same entry *)
+(* NaN-free, integers in range, and every map has hashable keys (with exactly convertible integers) no two of
+   which address the same entry *)
 Fixpoint wf_val (v : val) : bool :=
   match v with
   | VNum n => num_ok n
   | VList l | VTuple l => (fix all (l : list val) := match l with [] => true | x :: r => wf_val x && all r end) l
   | VMap m => distinctb (map fst m) &&
-      (fix all (m : list (val * val)) := match m with [] => true | (k, x) :: r => hashable k && wf_val k && wf_val x && all r end) m
+      (fix all (m : list (val * val)) := match m with [] => true | (k, x) :: r => hashable k && kfine k && wf_val x && all r end) m
   | _ => true
   end.
 
 Fixpoint wf_entries (m : list (val * val)) : bool :=
-  match m with [] => true | (k, x) :: r => hashable k && wf_val k && wf_val x && wf_entries r end.
+  match m with [] => true | (k, x) :: r => hashable k && kfine k && wf_val x && wf_entries r end.
 
 Lemma wf_list : forall l, wf_val (VList l) = all_b wf_val l.
 Proof. intros. simpl. induction l; simpl; auto; try (now rewrite IHl). Qed.
@@ -349,21 +327,7 @@ Proof. intros. simpl. induction l; simpl; auto; try (now rewrite IHl). Qed.
 Lemma wf_map : forall m, wf_val (VMap m) = distinctb (map fst m) && wf_entries m.
 Proof. intros. simpl. f_equal. Qed.
 
-Lemma wf_nan_free : forall v, wf_val v = true -> nan_free v = true.
-Proof.
-  induction v using val_ind'; intros W; try reflexivity.
-  - exact W.
-  - rewrite wf_list in W. rewrite nan_free_list. induction l; simpl in *; auto. inversion H; subst.
-    apply andb_prop in W. destruct W. rewrite H2, IHl; auto.
-  - rewrite wf_tuple in W. rewrite nan_free_tuple. induction l; simpl in *; auto. inversion H; subst.
-    apply andb_prop in W. destruct W. rewrite H2, IHl; auto.
-  - rewrite wf_map in W. apply andb_prop in W. destruct W as [_ W]. simpl.
-    induction m as [|[k x] m IH]; simpl in *; auto. inversion H; subst. simpl in H2. destruct H2.
-    repeat (apply andb_prop in W; destruct W as [W ?]).
-    rewrite H0, H1, IH; auto.
-Qed.
-
-Definition key_ok (k : val) : Prop := hashable k = true /\ nan_free k = true.
+Definition key_ok (k : val) : Prop := hashable k = true /\ kfine k = true.
 
 (* keys of a well-formed map: pairwise different entries *)
 Definition Distinct (ks : list val) : Prop :=
@@ -389,7 +353,7 @@ Qed.
 Lemma wf_entries_keys : forall m, wf_entries m = true -> forall k, In k (map fst m) -> key_ok k.
 Proof.
   induction m as [|[k0 x] m IH]; simpl; intros W k [].
-  - subst. repeat (apply andb_prop in W; destruct W as [W ?]). split; auto. now apply wf_nan_free.
+  - subst. repeat (apply andb_prop in W; destruct W as [W ?]). split; auto.
   - repeat (apply andb_prop in W; destruct W as [W ?]). apply IH; auto.
 Qed.
 
@@ -412,7 +376,7 @@ Qed.
 
 (* the entry a key addresses in a well-formed map: THE entry whose key matches it *)
 Lemma lookup_unique : forall V (m : list (val * V)) q k v,
-    Distinct (map fst m) -> (forall x, In x (map fst m) -> key_ok x) -> nan_free q = true ->
+    Distinct (map fst m) -> (forall x, In x (map fst m) -> key_ok x) -> kfine q = true ->
     In (k, v) m -> kmatch q k = true -> lookup_val (kmatch q) m = Some v.
 Proof.
   intros V m q k v [ND P] OK Nq Hin Hm.
@@ -599,15 +563,6 @@ Qed.
 
 (* ------------------------------------------------------------------ key identity *)
 
-Theorem hash_respects_eq_refuted :
-  exists a b, key_ok a /\ key_ok b /\ key_eq a b = true /\ hstream_eqb (hstream a) (hstream b) = false.
-Proof.
-  exists (VNum (I 1)), (VNum (F (b64_of_bits 4607182418800017408))).
-  split. { split; vm_compute; reflexivity. }
-  split. { split; vm_compute; reflexivity. }
-  split; vm_compute; reflexivity.
-Qed.
-
 Lemma find_from_sound : forall V f (m : list (val * V)) i,
     find_from f m 0 = Some i -> exists k v, nth_error m i = Some (k, v) /\ f k = true.
 Proof.
@@ -625,7 +580,7 @@ Proof.
 Qed.
 
 Lemma find_unique_idx : forall V (m : list (val * V)) q i k v,
-    Distinct (map fst m) -> (forall x, In x (map fst m) -> key_ok x) -> nan_free q = true ->
+    Distinct (map fst m) -> (forall x, In x (map fst m) -> key_ok x) -> kfine q = true ->
     nth_error m i = Some (k, v) -> kmatch q k = true -> find_from (kmatch q) m 0 = Some i.
 Proof.
   induction m as [|[k0 x] m IH]; intros q i k v [ND P] OK Nq Hn Hm.
@@ -671,14 +626,9 @@ Section KeyIdentity.
   Context {V : Type}.
   Variable U : val -> Prop.
   Hypothesis U_ok : forall k, U k -> key_ok k.
-  Hypothesis U_hash : hash_ok_on U.
 
   Lemma U_kmatch : forall a b, U a -> U b -> kmatch a b = key_eq a b.
-  Proof.
-    intros a b Ha Hb. unfold kmatch. destruct (key_eq a b) eqn:E.
-    - rewrite (U_hash a b Ha Hb E). reflexivity.
-    - apply andb_false_r.
-  Qed.
+  Proof. intros. apply kmatch_key_eq. Qed.
 
   Lemma get_index_of_U : forall (m : list (val * V)) q, (forall x, In x (map fst m) -> U x) -> U q ->
       get_index_of m q = find_from (kmatch q) m 0.
@@ -744,23 +694,34 @@ Section KeyIdentity.
   Qed.
 End KeyIdentity.
 
-(* ... and fails outside the class where the hash respects ==: after `m.insert 1, v` in a map that already has
-   an entry, `1.0` does not address the new entry although 1 == 1.0 (finding C14a) *)
+(* since the fix of C14a this covers keys of different representations: after `m.insert 1, v`, `1.0` addresses
+   the new entry in a map of any size *)
 Definition w_map : list (val * val) := [(VStr [97], VNull)].
+Definition w_map4 : list (val * val) := [(VStr [97], VNull); (VStr [98], VNull); (VNum (I 2), VNull); (VNull, VNull)].
 Definition w_k : val := VNum (I 1).
 Definition w_k' : val := VNum (F (b64_of_bits 4607182418800017408)).
 
-Theorem key_identity_refuted :
-    key_ok w_k /\ key_ok w_k' /\ (forall x, In x (map fst w_map) -> key_ok x) /\ distinctb (map fst w_map) = true /\
-    key_eq w_k w_k' = true /\
-    get_index_of (snd (insert_full w_map w_k VNull)) w_k' = None /\
-    (* while in a map with no other entry the same lookup succeeds *)
-    get_index_of (snd (insert_full (@nil (val * val)) w_k VNull)) w_k' = Some 0%nat.
+Example key_identity_mixed :
+    key_ok w_k /\ key_ok w_k' /\ key_eq w_k w_k' = true /\ hstream w_k = hstream w_k' /\
+    get_index_of (snd (insert_full (@nil (val * val)) w_k VNull)) w_k' = Some 0%nat /\
+    get_index_of (snd (insert_full w_map w_k VNull)) w_k' = Some 1%nat /\
+    get_index_of (snd (insert_full w_map4 w_k VNull)) w_k' = Some 4%nat /\
+    (* inserting the other representation updates the entry in place *)
+    fst (fst (insert_full (snd (insert_full w_map4 w_k VNull)) w_k' VNull)) = 4%nat.
 Proof.
   split. { split; vm_compute; reflexivity. }
   split. { split; vm_compute; reflexivity. }
-  split. { intros x [<-|[]]. split; vm_compute; reflexivity. }
+  split. { vm_compute; reflexivity. }
+  split. { vm_compute; reflexivity. }
   split. { vm_compute; reflexivity. }
   split. { vm_compute; reflexivity. }
   split; vm_compute; reflexivity.
 Qed.
+
+(* {1: 1, 2: 2} == {1.0: 1, 2: 2}, and 0.0 / -0.0 / 0 are one key *)
+Example veq_maps_mixed_keys :
+    veq (VMap [(VNum (I 1), VNum (I 1)); (VNum (I 2), VNum (I 2))])
+        (VMap [(w_k', VNum (I 1)); (VNum (I 2), VNum (I 2))]) = true /\
+    hstream (VNum (I 0)) = hstream (VNum (F (b64_of_bits 9223372036854775808))) /\
+    hstream (VNum (I 0)) = hstream (VNum (F (b64_of_bits 0))).
+Proof. split; [|split]; vm_compute; reflexivity. Qed.
